@@ -206,20 +206,30 @@ pub fn fed_immoderate_magnitude_t<T: crate::dynview::Scalar>(spec: &Spec, vals: 
     let _ = sym;
     // any proper subtree (view positions) whose stand-alone output leaves the moderate range feeds an
     // immoderate value to the node above it; everything downstream of that is out of domain
-    fn any_immoderate<T: crate::dynview::Scalar>(spec: &Spec, vals: &[f64], is_root: bool, limit: f64) -> bool {
+    // Moderate magnitude has a lower end too for the one view whose output is an unbounded function of signed
+    // inputs: CenterOfGravity divides by the plain sum of its window. A child that decays into the subnormal range
+    // (a high-pass filter over thousands of identical values) hands it a sum of 1e-320 and the quotient overflows:
+    // arithmetic range, not a defect (same reason as for the mixed-magnitude shape, which is not used with CoG).
+    fn any_immoderate<T: crate::dynview::Scalar>(spec: &Spec, vals: &[f64], parent: Option<K>, limit: f64) -> bool {
         if spec.k.arity() == 0 {
             return false;
         }
-        if !is_root && outputs::<T>(spec, vals).iter().any(|o| o.is_finite() && o.abs() > limit) {
-            return true;
+        if parent.is_some() {
+            let outs = outputs::<T>(spec, vals);
+            if outs.iter().any(|o| o.is_finite() && o.abs() > limit) {
+                return true;
+            }
+            if parent == Some(K::CoG) && outs.iter().any(|o| *o != 0.0 && o.abs() < 1.0 / limit) {
+                return true;
+            }
         }
         let view_kids: &[Spec] = match spec.k {
             K::Pfe | K::Eft => &spec.kids[..1],
             _ => &spec.kids[..],
         };
-        view_kids.iter().any(|k| any_immoderate::<T>(k, vals, false, limit))
+        view_kids.iter().any(|k| any_immoderate::<T>(k, vals, Some(spec.k), limit))
     }
-    any_immoderate::<T>(spec, vals, true, limit)
+    any_immoderate::<T>(spec, vals, None, limit)
 }
 
 /// does `spec` itself (not one of its view-position subtrees) show the symptom?
